@@ -285,6 +285,12 @@ def random_history(rng, focus=None, n_events=None):
     rec = HHRecorder(W, D, L, NS, phi)
     pool = key_pool(rng, L)
     keys = rng.sample(pool, rng.randint(2, min(8, len(pool))))
+    # always at least one pair of keys that differ only in trailing NUL bytes (or in length beyond
+    # max_key_len): the identities C03/C13 single out
+    stem = rng.choice([b"", b"a", b"q\x00", b"\xff"])[:max(L - 1, 0)]
+    for k in (stem, stem + b"\x00", (stem + b"\x00\x00")[:L + 1]):
+        if k not in keys:
+            keys.append(k)
     n = n_events or rng.randint(8, 28)
     big_ok = focus == "ceiling"
     vals = HH_VALUES if big_ok else [0, 1, 1, 1, 2, 3, 5, 7, 97, 1000, 10**6]
@@ -520,6 +526,8 @@ def replay_edges(report, edges, envs, Cap, scaled):
                             len({tuple(k) for k, _c in got}) != len(got):
                         bad(e, "query returned %s, specification %s" % (got, exp), got, exp)
                         return False
+                elif name == "generate":
+                    s.generate_candidate_set(o["thr"] * S)
                 elif name == "getitem":
                     got = int(s[rk(o["k"])])
                     if got != o["out"] * S:
